@@ -168,7 +168,7 @@ def run(ctx):
             inp, obj, alias, envs = cases[i]
             out, (f1, f2) = results[i]
             if alias not in fv0:
-                same = (f1 == obj and canon_str(dump_any2(f1)) == canon_str(dump_any2(obj))) and ((f2.is_predicate and f2.is_vacuous and f2.is_true) or (f2.is_expression and canon_str(dump_expr(f2)) == '(lit 1 "True" (b 1))'))
+                same = (f1 == obj and canon_str(dump_any2(f1)) == canon_str(dump_any2(obj))) and ((f2.is_predicate and f2.is_vacuous and f2.is_true) or (f2.is_expression and f2.is_value and f2.is_literal and f2.value is True))
                 if not same:
                     violations.append({'input': inp, 'impl': out, 'what': 'the input does not mention the alias but the result is not (input itself, True)', 'signature': 'not-unchanged'})
             else:
